@@ -56,7 +56,10 @@ type Case struct {
 	Instant string `json:"instant,omitempty"`
 	AgeMs   int64  `json:"age_ms,omitempty"`
 	Lex     int    `json:"lex,omitempty"`
-	Garbage string `json:"garbage,omitempty"`
+	// LocalMin: the IdP process's local time zone (time.Local) is UTC+LocalMin minutes while the case runs;
+	// neither the freshness verdict nor anything else may depend on it.
+	LocalMin int    `json:"local_min,omitempty"`
+	Garbage  string `json:"garbage,omitempty"`
 
 	ID          *string `json:"id,omitempty"`
 	Version     *string `json:"version,omitempty"`
@@ -174,6 +177,9 @@ func gen(t *rapid.T) Case {
 		SigMethod: rapid.SampledFrom(idpkit.RSAMethods).Draw(t, "sigmethod"),
 	}.WithExtras(rapid.Bool().Draw(t, "logoutURL"), rapid.Bool().Draw(t, "loginURL"), rapid.SampledFrom([]int{0, 0, 1, 48, 8760}).Draw(t, "validHours"),
 		rapid.IntRange(0, 3).Draw(t, "template") == 0, rapid.IntRange(0, 3).Draw(t, "maker") == 0)
+	if rapid.Bool().Draw(t, "local-zone") {
+		c.LocalMin = rapid.SampledFrom([]int{-720, -480, -300, -1, 1, 60, 330, 540, 840}).Draw(t, "localmin")
+	}
 	sso := c.Base + "/sso"
 	pool := []string{}
 	for i := 0; i < 5; i++ {
@@ -285,7 +291,7 @@ func gen(t *rapid.T) Case {
 	default:
 		c.Instant = "age"
 		c.AgeMs = genAge(t, c.DelayMs)
-		c.Lex = rapid.SampledFrom([]int{0, 0, 1, 2}).Draw(t, "lex")
+		c.Lex = rapid.IntRange(0, len(lexForms)-1).Draw(t, "lex")
 	}
 
 	// ACS URL / index
@@ -463,6 +469,13 @@ var lexForms = []func(time.Time) string{
 		return t.In(time.FixedZone("", 5*3600+1800)).Format("2006-01-02T15:04:05.000-07:00")
 	},
 	func(t time.Time) string { return t.UTC().Format("2006-01-02T15:04:05.999Z07:00") },
+	// zone-less forms: no designator means UTC, wherever the IdP process runs
+	func(t time.Time) string { return t.UTC().Format("2006-01-02T15:04:05.000") },
+	func(t time.Time) string { return t.UTC().Format("2006-01-02T15:04:05.999") },
+	func(t time.Time) string { return t.UTC().Format("2006-01-02T15:04:05.000000000Z") },
+	func(t time.Time) string {
+		return t.In(time.FixedZone("", -8*3600)).Format("2006-01-02T15:04:05.999-07:00")
+	},
 }
 
 func (c Case) spec(now time.Time) idpkit.ReqSpec {
@@ -593,6 +606,13 @@ func (c Case) classes() []string {
 		if c.DelayMs != 90000 {
 			cl = append(cl, "delay:non-default")
 		}
+		cl = append(cl, fmt.Sprintf("lex:%d", c.Lex%len(lexForms)))
+		if c.LocalMin != 0 {
+			cl = append(cl, "local-zone:non-utc")
+			if l := c.Lex % len(lexForms); l == 3 || l == 4 {
+				cl = append(cl, "local-zone:non-utc+zone-less-instant")
+			}
+		}
 	default:
 		cl = append(cl, "instant:"+c.Instant)
 	}
@@ -648,6 +668,11 @@ func load(reg *idpkit.Registry, c Case) bool {
 }
 
 func check(c Case) (res pbt.Result) {
+	if c.LocalMin != 0 && c.LocalMin > -900 && c.LocalMin < 900 {
+		old := time.Local
+		time.Local = time.FixedZone("harness-local", c.LocalMin*60)
+		defer func() { time.Local = old }()
+	}
 	now := fix.Epoch
 	fix.SetNow(now)
 	saml.MaxIssueDelay = time.Duration(c.DelayMs) * time.Millisecond
@@ -961,13 +986,15 @@ func enumFreshness(_ string, emit func(Case)) {
 		for _, age := range []int64{-delay - 1000, -1, 0, delay / 2, delay - 1, delay, delay + 1, delay + 1000, 10*delay + 1, 365 * 86400000} {
 			for _, m := range []string{"GET", "POST"} {
 				for _, k := range []string{"validate", "sso"} {
-					for lex := 0; lex < 3; lex++ {
-						if k == "sso" && lex != 0 {
-							continue
+					for lex := 0; lex < len(lexForms); lex++ {
+						for _, local := range []int{0, -720, -300, -1, 1, 330, 840} {
+							if k == "sso" && !((lex == 0 || lex == 3) && (local == 0 || local == -300)) {
+								continue
+							}
+							emit(Case{Kind: k, Base: "https://idp.example.com", DelayMs: delay, Providers: []SPMeta{sp}, Method: m,
+								Instant: "age", AgeMs: age, Lex: lex, LocalMin: local, ID: idpkit.P("id-1"), Version: idpkit.P("2.0"),
+								Destination: idpkit.P("https://idp.example.com/sso"), Issuer: idpkit.P(sp.EntityID)})
 						}
-						emit(Case{Kind: k, Base: "https://idp.example.com", DelayMs: delay, Providers: []SPMeta{sp}, Method: m,
-							Instant: "age", AgeMs: age, Lex: lex, ID: idpkit.P("id-1"), Version: idpkit.P("2.0"),
-							Destination: idpkit.P("https://idp.example.com/sso"), Issuer: idpkit.P(sp.EntityID)})
 					}
 				}
 			}
@@ -1119,7 +1146,8 @@ var prop = &pbt.Prop[Case]{
 		"against registries of 0-3 providers x 0-3 SPSSODescriptors x 0-4 ACS endpoints (bindings POST/Redirect/Artifact/SOAP/unknown, duplicate indices and locations, isDefault absent/true/false), through NewIdpAuthnRequest+Validate, ServeSSO and ServeIDPInitiated; " +
 		"IdP configuration fields no clause mentions are varied (LogoutURL, LoginURL, ValidDuration, form template, explicit assertion maker, Signer, signature method), endpoints may carry ResponseLocation and zero / huge / negative indices, " +
 		"forged Destinations include the other identifiers of the same deployment (logout, metadata, login URL) and of the requesting SP, and a quarter of the cases are two-step sequences on ONE IdentityProvider value with the registry replaced in between (the second step is judged against the registry at that moment); " +
-		"exhaustive: MaxIssueDelay x age lattice (+-1 ms), two-endpoint selection grid, 3^5 field presence grid, destination x LogoutURL/LoginURL grid, re-registration sequences. " +
+		"IssueInstant is written in seven lexical forms (Z, positive / negative offsets, trimmed and 9-digit fractions, zone-less = UTC) while the process's local zone (time.Local) is UTC or one of -12h..+14h; " +
+		"exhaustive: MaxIssueDelay x age lattice (+-1 ms) x lexical form x local zone, two-endpoint selection grid, 3^5 field presence grid, destination x LogoutURL/LoginURL grid, re-registration sequences. " +
 		"non-trivial: >=2 registered endpoints and the request names an index or URL; or a field absent/forged/must-reject; or IssueInstant within 1 ms of the limit; IdP-initiated: unknown/faulty provider or >=2 endpoints. distinct: sha256 of the JSON case.",
 	Gen:   gen,
 	Check: check,
